@@ -148,7 +148,9 @@ class BatchCanon:
     def rows(self, rows):
         if rows is None:
             return None
-        rn = "all" if is_all(rows) else {"self.kdof": "k", "self.rf": "rf", "self.rb": "rb", "self.nonrf": "k"}.get(symname(rows))
+        rn = "all" if is_all(rows) else {"self.kdof": "k", "self.rf": "rf", "self.rb": "rb"}.get(symname(rows))
+        if rn is None and self.mode == "U" and symname(rows) == "self.nonrf":
+            rn = "k"                     # _common_precalcs: kdof = nonrf (only get_su_eig, mode E, narrows kdof to the elastic set)
         if rn == "all" and self.mode == "U":
             if self.cfg.get("k", True) and not self.cfg.get("rf", True):
                 rn = "k"
